@@ -504,6 +504,13 @@ func checkC06(c *Ctx) {
 					}
 				}
 			}
+			if d == "" {
+				for _, o := range appendOrigins(ci.Common().Args[0]) {
+					if !isEmptySlice(p.Sym(o)) {
+						d = "the list does not start empty (" + p.Sym(o).String() + ")"
+					}
+				}
+			}
 			c.Check(d == "", "R5", "next-bb-scan", p.InstrPos(ci), "seats bb+1 … bb+N mod N, occupied ∧ bankroll > 0", "next-BB order: "+d)
 		}
 		c.Min("R5", "appends in the next-BB scan", n, 1)
